@@ -501,6 +501,25 @@ func (s *scn) apply(st CStep) {
 		s.applyAudit(st)
 	case "auditcycle":
 		s.applyAuditCycle(st)
+	case "svccycle":
+		s.applySvcCycle(st)
+	case "ghostburst":
+		// several requests with the same timeout to destinations that do not exist (accepted as begin-failed) in one
+		// block, and their failure receipts together in a later block
+		k := 2 + st.N%2
+		s.flush()
+		for j := 0; j < k; j++ {
+			s.applyIBTP(CStep{Op: "ibtp", Kind: "req", Pair: st.Pair + j*st.A, Idx: "next", T: st.T, Ghost: true})
+		}
+		s.flush()
+		if st.N%3 == 0 {
+			s.flush()
+		}
+		for j := 0; j < k; j++ {
+			s.applyIBTP(CStep{Op: "ibtp", Kind: "fail", Pair: st.Pair + j*st.A, Idx: "next", Ghost: true})
+		}
+		s.flush()
+		s.res.Count("ghost_burst")
 	case "ruleop":
 		s.applyRuleOp(st)
 	case "eth":
